@@ -1,6 +1,11 @@
 import Bcder.Props.C11
 import Bcder.Props.C11b
 #print axioms Bcder.Props.C11.capture_exact
+#print axioms Bcder.Props.C11.capture_exact_tracks
+#print axioms Bcder.Props.C11.tracks_bind
+#print axioms Bcder.Props.C11.tracks_capture
+#print axioms Bcder.Props.C11.nested_capture_exact
+#print axioms Bcder.Props.C11.nested_example
 #print axioms Bcder.Props.C11.capture_one_exact
 #print axioms Bcder.Props.C11.capture_all_exact
 #print axioms Bcder.Props.C11.eoc_not_captured
